@@ -214,6 +214,7 @@ namespace io {
             }
             virtual ~Parser() noexcept = default;
             virtual void run() = 0;
+            void send_to_output_queue(osmium::memory::Buffer&& buffer) { add_to_queue(m_output_queue, std::move(buffer)); }
             std::string get_input() { return m_input_queue.pop(); }
             bool output_in_use() const noexcept { return m_output_queue.in_use(); }
             void parse() {
@@ -233,10 +234,16 @@ namespace io {
         public:
             explicit SomeParser(parser_arguments& args) : Parser(args) {}
             void run() override {
-                const std::string data{get_input()};
+                std::string data;
+                try {
+                    data = get_input();
+                } catch (const std::runtime_error&) {
+                    // X1: swallows the io_error the read thread put into the input queue
+                }
                 if (m_skip) {
                     return;  // H2: normal exit without the header
                 }
+                send_to_output_queue(osmium::memory::Buffer{});  // H3: object data before the header
                 set_header_value(osmium::io::Header{});
             }
         };
